@@ -30,6 +30,8 @@ import (
 
 	"github.com/sirupsen/logrus"
 
+	"github.com/projectcalico/api/pkg/lib/numorstring"
+
 	v3 "github.com/projectcalico/api/pkg/apis/projectcalico/v3"
 
 	"github.com/projectcalico/calico/felix/config"
@@ -254,6 +256,21 @@ func genConfig(r *rng) *genCfg {
 	c.AllowVXLANPacketsFromWorkloads = r.chance(30)
 	c.AllowIPIPPacketsFromWorkloads = r.chance(30)
 	c.ServiceLoopPrevention = r.pick([]string{"Drop", "Reject", "Disabled"})
+	c.KubeIPVSSupportEnabled = r.chance(30)
+	nNP := r.intn(3)
+	if r.chance(15) {
+		nNP = 8 + r.intn(4) // more than 15 multiport slots: SplitPortList makes several rules
+	}
+	var npT []string
+	for i := 0; i < nNP; i++ {
+		lo := uint16(30000 + 200*i + r.intn(50))
+		hi := lo
+		if r.chance(70) {
+			hi = lo + uint16(1+r.intn(100))
+		}
+		c.KubeNodePortRanges = append(c.KubeNodePortRanges, numorstring.Port{MinPort: lo, MaxPort: hi})
+		npT = append(npT, fmt.Sprintf("(pair %d %d)", lo, hi))
+	}
 	c.IstioAmbientModeEnabled = r.chance(30)
 	c.IstioDSCPMark = uint8(r.intn(64))
 	g.cfg = c
@@ -266,14 +283,15 @@ func genConfig(r *rng) *genCfg {
 	if g.v6() {
 		verT = "V6"
 	}
-	g.term = fmt.Sprintf("(Build_cfg %s %d %d %d %d %s %s %s %s %s %s %d %s %s %d %d %s %s %s %d %s %s %s %s %s %s %s)",
+	g.term = fmt.Sprintf("(Build_cfg %s %d %d %d %d %s %s %s %s %s %s %d %s %s %d %d %s %s %s %d %s %s %s %s %s %s %s %s %d %d %s)",
 		verT, g.ml.accept, g.ml.pass, g.ml.s0, g.ml.s1, listTerm(pf), fsTerm(g.fsIn, g.ver), fsTerm(g.fsOut, g.ver),
 		b(c.IPIPEnabled), b(c.VXLANEnabled), b(c.VXLANEnabledV6), c.VXLANPort,
 		b(c.WireguardEnabled), b(c.WireguardEnabledV6), c.WireguardListeningPort, c.WireguardListeningPortV6,
 		b(g.wgRaw), nameBytes(c.WireguardInterfaceName), nameBytes(c.WireguardInterfaceNameV6), g.ml.wg,
 		b(c.OpenStackSpecialCasesEnabled), meta,
 		actTerm(c.EndpointToHostAction, "AReturn"), actTerm(c.FilterAllowAction, "AAccept"),
-		actTerm(c.MangleAllowAction, "AAccept"), actTerm(c.FilterDenyAction, "ADrop"), b(c.IstioAmbientModeEnabled))
+		actTerm(c.MangleAllowAction, "AAccept"), actTerm(c.FilterDenyAction, "ADrop"), b(c.IstioAmbientModeEnabled),
+		b(c.KubeIPVSSupportEnabled), g.ml.endpoint, g.ml.nonCali, listTerm(npT))
 	return g
 }
 
@@ -499,6 +517,7 @@ type world struct {
 	hostIPs   []*big.Int // members of all-hosts-net
 	vxlanIPs  []*big.Int // members of all-vxlan-net
 	otherIPs  []*big.Int
+	localIPs  []*big.Int // members of this-host
 	raw       *tableAcc
 	mangle    *tableAcc
 	filter    *tableAcc
@@ -547,8 +566,13 @@ func build(r *rng) *world {
 		w.hostIPs = append(w.hostIPs, randIP(r, ver))
 		w.vxlanIPs = append(w.vxlanIPs, randIP(r, ver))
 		w.otherIPs = append(w.otherIPs, randIP(r, ver))
+		w.localIPs = append(w.localIPs, randIP(r, ver))
 	}
 
+	var epmm rules.EndpointMarkMapper
+	if g.cfg.KubeIPVSSupportEnabled {
+		epmm = rules.NewEndpointMarkMapper(g.ml.endpoint, g.ml.nonCali)
+	}
 	// ---- endpoints
 	nWl := r.intn(4)
 	if r.chance(8) {
@@ -652,7 +676,7 @@ func build(r *rng) *world {
 		eps[types.WorkloadEndpointID{OrchestratorId: "k8s", WorkloadId: fmt.Sprintf("w%d", i), EndpointId: "eth0"}] = &proto.WorkloadEndpoint{Name: n}
 		tiers, groups := normal.tiers(r)
 		addGroups(w.filter, doneF, groups)
-		w.filter.add(ver, sets, rr.WorkloadEndpointToIptablesChains(n, nil, !r.chance(10), tiers, profIDs, nil)...)
+		w.filter.add(ver, sets, rr.WorkloadEndpointToIptablesChains(n, epmm, !r.chance(10), tiers, profIDs, nil)...)
 		w.wlChains[n] = rules.EndpointChainName(rules.WorkloadFromEndpointPfx, n, maxLen)
 	}
 	if g.nft {
@@ -694,7 +718,7 @@ func build(r *rng) *world {
 		addGroups(w.filter, doneF, groups)
 		fwdTiers, fgroups := normal.tiers(r)
 		addGroups(w.filter, doneF, fgroups)
-		w.filter.add(ver, sets, rr.HostEndpointToFilterChains(n, tiers, fwdTiers, nil, profIDs)...)
+		w.filter.add(ver, sets, rr.HostEndpointToFilterChains(n, tiers, fwdTiers, epmm, profIDs)...)
 		addGroups(w.mangle, doneM, groups)
 		w.mangle.add(ver, sets, rr.HostEndpointToMangleEgressChains(n, tiers, profIDs)...)
 		if n != anyIface {
@@ -720,6 +744,9 @@ func build(r *rng) *world {
 		def = anyIface
 	}
 	w.filter.add(ver, sets, rr.HostDispatchChains(filtMap, def, true)...)
+	if g.cfg.KubeIPVSSupportEnabled {
+		w.filter.add(ver, sets, rr.EndpointMarkDispatchChains(epmm, eps, filtMap)...)
+	}
 	w.raw.add(ver, sets, rr.HostDispatchChains(rawMap, "", false)...)
 	w.mangle.add(ver, sets, rr.FromHostDispatchChains(preMap, preDefault)...)
 	w.mangle.add(ver, sets, rr.ToHostDispatchChains(filtMap, def)...)
@@ -778,9 +805,9 @@ func (w *world) probes(r *rng) []*pkt {
 	g := w.g
 	ver := g.ver
 	cts := []string{"CtNew", "CtNew", "CtEstablished", "CtRelated", "CtUntracked", "CtInvalid"}
-	marks := []uint32{0, g.ml.accept, g.ml.pass, g.ml.s0, g.ml.accept | g.ml.s1, 0xffffffff, g.ml.drop, uint32(r.next())}
+	marks := []uint32{0, 0, g.ml.endpoint, g.ml.nonCali, g.ml.accept, g.ml.pass, g.ml.s0, g.ml.accept | g.ml.s1, 0xffffffff, g.ml.drop, uint32(r.next())}
 	nonWl := append([]string{"eth0", "eth1", "ens5", "bond0", "lo", "eth9", "wg0", ""}, w.hepNames...)
-	ipPool := append(append(append([]*big.Int{}, w.hostIPs...), w.vxlanIPs...), w.otherIPs...)
+	ipPool := append(append(append(append([]*big.Int{}, w.hostIPs...), w.vxlanIPs...), w.otherIPs...), w.localIPs...)
 	base := func(why string) *pkt {
 		p := &pkt{ver: ver, proto: []int{6, 17, 6, 17, 132, 1, 58, 4}[r.intn(8)], why: why,
 			src: ipPool[r.intn(len(ipPool))], dst: ipPool[r.intn(len(ipPool))],
@@ -792,6 +819,9 @@ func (w *world) probes(r *rng) []*pkt {
 		}
 		if r.chance(20) {
 			p.dport = r.intn(65536)
+		}
+		if nps := g.cfg.KubeNodePortRanges; len(nps) > 0 && r.chance(25) {
+			p.dport = int(nps[r.intn(len(nps))].MinPort)
 		}
 		if p.proto == 58 || p.proto == 1 {
 			p.icmpType = []int{128, 129, 130, 131, 132, 133, 134, 135, 136, 137, 8, 0}[r.intn(12)]
@@ -983,7 +1013,7 @@ func (w *world) caseTerm(ps []*pkt) string {
 		}
 		return listTerm(ms)
 	}
-	sets := listTerm([]string{fmt.Sprintf("(pair 1 %s)", mem(w.hostIPs)), fmt.Sprintf("(pair 2 %s)", mem(w.vxlanIPs))})
+	sets := listTerm([]string{fmt.Sprintf("(pair 1 %s)", mem(w.hostIPs)), fmt.Sprintf("(pair 2 %s)", mem(w.vxlanIPs)), fmt.Sprintf("(pair 3 %s)", mem(w.localIPs))})
 	var pts []string
 	for _, p := range ps {
 		pts = append(pts, p.term())
@@ -1021,7 +1051,7 @@ func main() {
 		baseTags := []string{flav, fmt.Sprintf("ipv%d", g.ver), "ep-to-host:" + g.cfg.EndpointToHostAction, "filter-allow:" + g.cfg.FilterAllowAction,
 			"mangle-allow:" + g.cfg.MangleAllowAction, "deny:" + g.cfg.FilterDenyAction,
 			fmt.Sprintf("ipip:%v", g.cfg.IPIPEnabled), fmt.Sprintf("vxlan4:%v", g.cfg.VXLANEnabled), fmt.Sprintf("vxlan6:%v", g.cfg.VXLANEnabledV6),
-			fmt.Sprintf("wireguard-raw:%v", g.wgRaw), fmt.Sprintf("openstack:%v", g.cfg.OpenStackSpecialCasesEnabled), fmt.Sprintf("istio:%v", g.cfg.IstioAmbientModeEnabled),
+			fmt.Sprintf("wireguard-raw:%v", g.wgRaw), fmt.Sprintf("openstack:%v", g.cfg.OpenStackSpecialCasesEnabled), fmt.Sprintf("istio:%v", g.cfg.IstioAmbientModeEnabled), fmt.Sprintf("kube-ipvs:%v", g.cfg.KubeIPVSSupportEnabled), fmt.Sprintf("nodeport-ranges:%d", min(len(g.cfg.KubeNodePortRanges), 8)),
 			fmt.Sprintf("prefixes:%d", len(g.prefixes)), fmt.Sprintf("wildcard-hep:%v", w.wildcard),
 			fmt.Sprintf("workloads:%d", min(len(w.wlNames), 6)), fmt.Sprintf("heps:%d", len(w.hepNames)),
 			fmt.Sprintf("failsafe-in:%d", min(len(g.fsIn), 8)), fmt.Sprintf("failsafe-out:%d", min(len(g.fsOut), 8))}
